@@ -47,6 +47,10 @@ func c14Forms() []c14Form {
 		c14Form{"object3", "O", []string{"N", "N", "N"}, "{k: %0, a: %1, z: %2}"},
 		c14Form{"builtin-max", "N", []string{"N", "N", "N"}, BI("max", "%0", "%1", "%2")}, c14Form{"builtin-pow", "N", []string{"N", "N"}, BI("pow", "%0", "%1")},
 		c14Form{"len", "N", []string{"A"}, BI("len", "%0")},
+		// arguments are evaluated whatever the callee does with them (nothing, return at once, use one)
+		c14Form{"call-empty-body", "X", []string{"N", "N"}, "noop2(%0, %1)"}, c14Form{"call-comment-body", "X", []string{"N"}, "noopc(%0)"},
+		c14Form{"call-return-only", "X", []string{"N", "N"}, "retonly(%0, %1)"}, c14Form{"call-ignores-some", "N", []string{"N", "N", "N"}, "ignore3(%0, %1, %2)"},
+		c14Form{"call-empty-body-assign-args", "X", []string{"N", "N"}, "noop2(x = %0, x = x + %1)"},
 		// operands of a faulting operation are still evaluated once, in order, before the fault
 		c14Form{"index-on-nonarray", "N", []string{"Z", "I"}, "%0[%1]"},
 		c14Form{"setindex-on-nonarray", "N", []string{"Z", "I", "N"}, "(%0[%1] = %2)"},
@@ -66,6 +70,7 @@ func c14Prelude() string {
 	return Lines(
 		Fun("p", "t, v", " "+Print("t")+" "+Ret("v")+" "),
 		Fun("add2", "a, b", " "+Ret("a * 10 + b")+" "), Fun("zero", "", " "+Ret("7")+" "), Fun("add3", "a, b, c", " "+Ret("a * 100 + b * 10 + c")+" "),
+		Fun("noop2", "a, b", ""), Fun("noopc", "a", " /* nothing to do */ "), Fun("retonly", "a, b", " "+Ret("")+" "), Fun("ignore3", "a, b, c", " "+Ret("b")+" "),
 		Var("x", "0"))
 }
 
